@@ -14,7 +14,8 @@ def transparency_failures(scn, il=None):
     """implementation-only oracle: each evaluation on the long-lived graph returns the value, or
     fails, as a freshly built copy of the graph does with caching disabled for that dictionary"""
     raws = []
-    il = core.run_impl(scn, raw_out=raws)
+    if il is None:
+        il = core.run_impl(scn, raw_out=raws)
     out = []
     memo = {}
     for j, (op, line) in enumerate(zip(scn["ops"], il)):
@@ -24,8 +25,32 @@ def transparency_failures(scn, il=None):
         if key not in memo:
             memo[key] = cp.fresh_eval(scn, op[1], op[4], raw=True)
         fl, fr = memo[key]
-        if not cp.same_outcome(line, raws[j], fl, fr):
+        a, b = cp.split(line)[0], cp.split(fl)[0]
+        if a == b or (not a.startswith("ok:") and not b.startswith("ok:")):
+            continue            # the same rendered value, or both fail (cp.same_outcome without the raw values)
+        if not raws and a.startswith("ok:") and b.startswith("ok:"):
+            # the observation lines came from the correspondence run: the raw values (Python ==, dictionaries regardless of key
+            # order) are needed only here, where two successful evaluations are rendered differently
+            core.run_impl(scn, raw_out=raws)
+        if not cp.same_outcome(line, raws[j] if raws else None, fl, fr):
             out.append((j, cp.outcome(line), cp.outcome(fl)))
+    return out
+
+
+def strict_failures(scn, il):
+    """inside the fragment `order_faithful` (see there) the unchanged library visits the parts of a graph in ONE order in keys(),
+    validate() and evaluate(), and every deficiency of the family is visible to keys(): an operation on the long-lived graph
+    fails with the very cause (class and key of the innermost labrea error; EvaluationError-ness) of the same operation on a
+    fresh cache-free copy, whichever of several simultaneous deficiencies there are - all four methods"""
+    out = []
+    memo = {}
+    for j, (op, line) in enumerate(zip(scn["ops"], il)):
+        key = (op[0], op[1], repr(op[4]))
+        if key not in memo:
+            memo[key] = cp.fresh_eval(scn, op[1], op[4], method=op[0])
+        a, b = cp.split(line)[0], cp.split(memo[key])[0]
+        if a != b and not (a.startswith("ok:") and b.startswith("ok:")):
+            out.append((j, a, b))
     return out
 
 
@@ -119,7 +144,7 @@ RECORDED_ENTRIES = ("instance", "callable", "factory", "factory", "factory_kw", 
                     "set_cache_callable", "nocache_then_set")
 UNRECORDED_ENTRIES = ("bare", "class", "factory_class", "factory_class", "set_cache_class")
 NOCACHE_ENTRIES = ("nocache_instance", "nocache_prop", "nocache_factory", "nocache_class", "nocache_set")
-FLAVOURS = ("function", "lambda", "partial", "class", "method")
+FLAVOURS = ("function", "lambda", "partial", "class", "method", "object", "cache_class", "partial_class", "kwonly")
 
 
 def entry_builder_class(base):
@@ -159,7 +184,50 @@ def entry_builder_class(base):
                 return functools.partial(lambda tag: make(), "tag")
             if flavour == "class":
                 return type("PerDatasetCache", (), {"__new__": staticmethod(lambda cls: make())})
+            if flavour == "object":             # an instance of a user class with __call__
+                return type("CacheProvider", (), {"__call__": lambda self_: make()})()
+            if flavour in ("cache_class", "partial_class"):     # a genuine user subclass of the library's cache, given as the CLASS
+                cls = self.recording_cache_class()
+                return cls if flavour == "cache_class" else functools.partial(cls)
+            if flavour == "kwonly":             # a function whose parameters all have defaults (keyword-only ones included)
+                def new_cache(tag="t", *, kind=None):
+                    return make()
+                return new_cache
             return self.cache_for_current       # a bound method
+
+        def recording_cache_class(self):
+            """a MemoryCache subclass whose INSTANCES record like World.cache(<the dataset being created>) does; every call of the
+            class makes a new, empty cache (an instance made outside the creation of a dataset is nobody's cache)"""
+            from labrea.cache import MemoryCache
+            builder, world = self, self.w
+
+            class UserCache(MemoryCache):
+                def __init__(self):
+                    super().__init__()
+                    if builder.current is None:
+                        builder.orphans += 1
+                        self.cid = 9000 + builder.orphans
+                    else:
+                        self.cid = builder.current
+
+                def exists(self, evaluatable, options):
+                    r = super().exists(evaluatable, options)
+                    world.calls.append(f"ex{self.cid}{'T' if r else 'F'}")
+                    return r
+
+                def get(self, evaluatable, options):
+                    try:
+                        r = super().get(evaluatable, options)
+                    except Exception:
+                        world.calls.append(f"get{self.cid}F")
+                        raise
+                    world.calls.append(f"get{self.cid}T")
+                    return r
+
+                def set(self, evaluatable, options, value):
+                    super().set(evaluatable, options, value)
+                    world.calls.append(f"set{self.cid}")
+            return UserCache
 
         def factory(self, key, cache):
             from labrea import dataset
@@ -478,6 +546,242 @@ def directed(ctx, n):
     return out
 
 
+# ----------------------------------------------------------------------------- histories that go on after a failure
+# "regardless of what was evaluated earlier" includes evaluations that FAILED - in every way an operation can fail - on the
+# same graph or on an unrelated graph of the same process.  after_failure: 2-3 independent cached graphs that reach one
+# target option (TT.TU) through different reference sites; failing operations (the target's section is None / a scalar / a
+# list / empty / absent, the referring option is absent or refers to a missing key, the value is outside a domain, matches no
+# case, makes the body / a bind function raise; asked through evaluate, validate, keys, explain) are followed by
+# evaluations of EVERY graph under dictionaries that differ only in the target.  The option names are the history's own.
+
+TARGET_VALS = [gen.lit("a"), gen.lit("b"), 1, 2, gen.lit("c")]
+
+
+def after_failure_scenario(rng, base=70):
+    """base: the first of the six option names (atoms) of this history.  Every history of one run gets names of its own, so that
+    whatever a failing operation leaves behind under a NAME can only come from the history itself (a replay reproduces it)"""
+    from gen import K
+    from core import lit, S
+    g = gen.Gen(rng)
+    TT, TU, TW, TP, TQ, TD = range(base, base + 6)
+    target = K(TT, TU)
+    templ = S(("lit", "r"), ("ref", target)) if rng.random() < 0.5 else S(("ref", target))
+
+    def site():
+        kind = rng.choice(["value_templ", "value_templ", "default_templ", "default_templ", "template", "template_par", "direct", "direct_domain",
+                           "switch", "bind", "first"])
+        if kind == "value_templ":       # the option's VALUE in the dictionary is a templated string
+            return ("option", K(TP), None, None), kind
+        if kind == "default_templ":     # ... its default is
+            return ("option", K(TD), ("template", (("ref", target), ("lit", "/")), []), None), kind
+        if kind == "template":
+            return ("template", (("lit", "s"), ("ref", target)), []), kind
+        if kind == "template_par":
+            return ("template", (("ref", target), ("par", 1)), [(1, ("value", ("j", lit("o"))))]), kind
+        if kind == "direct":
+            return ("option", target, None, None), kind
+        if kind == "direct_domain":
+            return ("option", target, None, ("value", ("j", [lit("a"), lit("b"), 1, 2]))), kind
+        if kind == "switch":
+            return ("switch", ("option", target, None, None), [(("j", lit("a")), ("value", ("j", 1))), (("j", lit("b")), ("option", K(TQ), ("value", ("j", 0)), None)),
+                                                              (("j", 1), ("value", ("j", lit("one"))))], None), kind
+        if kind == "bind":
+            return ("bind", ("option", target, None, None), [(("j", lit("a")), ("value", ("j", 1))), (("j", 2), ("option", K(TQ), ("value", ("j", 0)), None)),
+                                                            (("j", lit("b")), ("value", ("j", lit("bee"))))], None), kind
+        return ("call", g.newf(("first",)), [("option", K(TP), None, None)]), kind
+
+    def graph(dsid):
+        e, kind = site()
+        w = rng.random()
+        body = g.newf(("tag",)) if rng.random() < 0.75 else g.newf(("tag_raise_on", ("j", rng.choice([lit("c"), lit("rc"), 2])), rng.randint(1, 7)))
+        if kind in ("direct", "direct_domain") and rng.random() < 0.4:
+            body = g.newf(("tag_raise_on", ("j", rng.choice([lit("c"), 2])), rng.randint(1, 7)))
+        if w < 0.45:
+            g.env[dsid] = dict(fid=body, kwargs=[e] + ([("option", K(TQ), ("value", ("j", 0)), None)] if rng.random() < 0.4 else []))
+            return ("dataset", dsid), kind
+        if w < 0.60:
+            return ("cached", 80 + dsid, ("call", body, [e])), kind
+        if w < 0.72:                    # the reference sits in the callback
+            g.env[dsid] = dict(fid=body, kwargs=[("option", K(TQ), ("value", ("j", 0)), None)], callback=("pstep", g.newf(("tag",)), [e]))
+            return ("dataset", dsid), kind
+        if w < 0.84 and kind in ("value_templ", "direct", "first"):       # ... in the dispatch
+            g.env[dsid] = dict(fid=body, kwargs=[], dispatch=e, overloads=[(("j", lit("a")), ("value", ("j", lit("A")))),
+                                                                            (("j", lit("ra")), ("option", K(TQ), ("value", ("j", 0)), None))])
+            return ("dataset", dsid), kind
+        g.env[dsid] = dict(fid=body, kwargs=[e])                          # ... below a consumer
+        g.env[dsid + 10] = dict(fid=g.newf(("tag",)), kwargs=[("dataset", dsid), ("option", K(TQ), ("value", ("j", 0)), None)])
+        return ("dataset", dsid + 10), kind
+    roots, kinds = [], []
+    for i in range(rng.randint(2, 3)):
+        e, kind = graph(i + 1)
+        roots.append(e)
+        kinds.append(kind)
+
+    def good(v, extra=None):
+        o = {TP: templ, TT: {TU: v}, TQ: 1}
+        if extra:
+            o.update(extra)
+        return o
+
+    def failing():
+        r = rng.random()
+        base = good(rng.choice(TARGET_VALS))
+        if r < 0.22:
+            base[TT] = None                                      # an empty section (what `TT:` with nothing under it loads as)
+        elif r < 0.36:
+            base[TT] = rng.choice([5, lit("x"), True, 0])        # a scalar where a section is expected
+        elif r < 0.44:
+            base[TT] = [1, 2]
+        elif r < 0.54:
+            base[TT] = {}
+        elif r < 0.64:
+            del base[TT]
+        elif r < 0.72:
+            del base[TP]
+        elif r < 0.80:
+            base[TP] = S(("ref", K(TW)))                        # refers to a key that is missing
+        elif r < 0.86:
+            base[TT] = {TU: None}
+        else:
+            base[TT] = {TU: rng.choice([lit("zz"), 9, lit("c"), 2])}     # outside the domain / no matching case / the body raises
+        return base
+    ops = []
+    meths = ("evaluate", "evaluate", "evaluate", "evaluate", "validate", "keys", "explain")
+    if rng.random() < 0.5:
+        ops.append(("evaluate", rng.randrange(len(roots)), False, False, good(rng.choice(TARGET_VALS[:2]))))
+    for _ in range(rng.randint(1, 3)):
+        ops.append((rng.choice(meths), rng.randrange(len(roots)), False, False, failing()))
+    vals = rng.sample(TARGET_VALS, 3)
+    for i in rng.sample(range(len(roots)), len(roots)):
+        for v in (vals[0], vals[1], vals[0]):
+            ops.append(("evaluate", i, False, False, good(v)))
+    ops.append((rng.choice(meths), rng.randrange(len(roots)), False, False, failing()))
+    for i in rng.sample(range(len(roots)), min(2, len(roots))):
+        ops.append(("evaluate", i, False, False, good(vals[2], {TQ: 1} if rng.random() < 0.7 else {TQ: 2})))
+        ops.append(("evaluate", i, False, False, good(vals[1])))
+    return dict(ftable=dict(g.ftable), env=dict(g.env), exprs=roots, ops=ops, after_failure=kinds)
+
+
+# ----------------------------------------------------------------------------- several deficiencies at once
+# deficient: graphs of the fragment in which labrea visits the parts of a graph in ONE order in keys(), validate() and evaluate()
+# (datasets with arguments / dispatch / overloads / a callback, function applications, pipelines of several steps - as callback,
+# applied to an argument, or handed to the body -, plain options, switches, collections, cached nodes, pre-set options), every
+# part reading an option of its own; dictionaries deficient for TWO OR MORE parts at once (keys missing, values matching no
+# case).  There "fails exactly as with caching off" is demanded literally (strict_failures): the same cause.
+
+DF = list(range(80, 90))
+
+
+def deficient_scenario(rng):
+    from gen import K
+    from core import lit
+    g = gen.Gen(rng)
+    free = list(DF)
+    rng.shuffle(free)
+    used, switched = [], []
+
+    def opt():
+        k = free.pop()
+        used.append(k)
+        return ("option", K(k), None, None)
+
+    def part():
+        """a part with one deficiency site (sometimes two)"""
+        r = rng.random()
+        if r < 0.6 or len(free) < 3:
+            return opt()
+        if r < 0.8:
+            k = free.pop()
+            used.append(k)
+            switched.append(k)
+            return ("switch", ("option", K(k), None, None), [(("j", 1), ("value", ("j", lit("one")))), (("j", 2), opt())], None)
+        return ("call", g.newf(("tag",)), [opt(), opt()])
+
+    def step():
+        return ("pstep", g.newf(("tag",)), [part() for _ in range(1 if rng.random() < 0.8 or len(free) < 3 else 2)])
+
+    def pipe(n):
+        return ("pipe", [step() for _ in range(n)])
+    shape = rng.choice(["callback", "callback", "callback1", "applied", "applied", "handed", "args", "nested", "dispatch", "cached_call", "collection",
+                        "preset"])
+    env = g.env
+    if shape == "callback":
+        env[1] = dict(fid=g.newf(("tag",)), kwargs=[part()] if rng.random() < 0.7 else [], callback=pipe(rng.randint(2, 3)))
+        root = ("dataset", 1)
+    elif shape == "callback1":
+        env[1] = dict(fid=g.newf(("tag",)), kwargs=[part()], callback=("pstep", g.newf(("tag",)), [part(), part()]))
+        root = ("dataset", 1)
+    elif shape == "applied":
+        env[1] = dict(fid=g.newf(("tag",)), kwargs=[("apply", part(), pipe(rng.randint(2, 3)))] + ([part()] if rng.random() < 0.4 else []))
+        root = ("dataset", 1)
+    elif shape == "handed":         # the pipeline is an ordinary argument of the dataset
+        env[1] = dict(fid=g.newf(("tag",)), kwargs=[part(), pipe(rng.randint(2, 3))])
+        root = ("dataset", 1)
+    elif shape == "args":
+        env[1] = dict(fid=g.newf(("tag",)), kwargs=[part() for _ in range(rng.randint(2, 3))])
+        root = ("dataset", 1)
+    elif shape == "nested":
+        env[1] = dict(fid=g.newf(("tag",)), kwargs=[part()], **({"callback": pipe(2)} if rng.random() < 0.5 else {}))
+        env[2] = dict(fid=g.newf(("tag",)), kwargs=rng.sample([("dataset", 1), part()], 2))
+        root = ("dataset", 2)
+    elif shape == "dispatch":
+        env[1] = dict(fid=g.newf(("tag",)), kwargs=[part()], dispatch=opt(), overloads=[(("j", 1), ("call", g.newf(("tag",)), [part(), part()]))])
+        root = ("dataset", 1)
+    elif shape == "cached_call":
+        root = ("cached", 95, ("call", g.newf(("tag",)), [part(), ("apply", part(), pipe(2))]))
+    elif shape == "collection":
+        env[1] = dict(fid=g.newf(("tag",)), kwargs=[(rng.choice(["list", "tuple"]), [part(), part()]), part()])
+        root = ("dataset", 1)
+    else:
+        env[1] = dict(fid=g.newf(("tag",)), kwargs=[part(), part()], callback=pipe(2))
+        root = ("with", rng.random() < 0.5, {used[0]: 1}, ("dataset", 1))
+    roots = [root]
+    if 1 in env and root != ("dataset", 1) and rng.random() < 0.5:
+        roots.append(("dataset", 1))
+    full = {k: (1 if k in switched or rng.random() < 0.5 else rng.choice([2, lit("v")])) for k in used}
+
+    def lacking(n):
+        o = dict(full)
+        for k in rng.sample(used, min(n, len(used))):
+            if k in switched and rng.random() < 0.5:
+                o[k] = 7            # a value matching no case
+            else:
+                del o[k]
+        if rng.random() < 0.3:
+            o = dict(reversed(list(o.items())))
+        return o
+    ops = []
+    meths = ("evaluate",) * 6 + ("validate", "validate", "keys", "explain")
+    for t in range(12):
+        r = rng.random()
+        o = dict(full) if r < 0.2 else lacking(1) if r < 0.35 else lacking(2) if r < 0.75 else lacking(3)
+        if r < 0.2 and rng.random() < 0.5:
+            o[rng.choice(used)] = rng.choice([1, 2])
+        ops.append((rng.choice(meths), rng.randrange(len(roots)), False, False, o))
+    return dict(ftable=dict(g.ftable), env=dict(env), exprs=roots, ops=ops, strict=shape)
+
+
+def order_faithful(scn):
+    """the fragment strict_failures speaks about, checked on the description (the family is generated inside it)"""
+    allowed = {"value", "fnvalue", "option", "switch", "call", "pstep", "pipe", "apply", "list", "tuple", "cached", "with", "dataset"}
+    others = {"template", "coalesce", "case", "bind", "map", "iter", "dict", "comp", "logged", "alloptions", "tolist"}      # (the rest of core.Builder.build)
+    for t in list(cp.sub_exprs(scn["exprs"])) + list(cp.sub_exprs([v for k, v in scn["env"].items() if isinstance(k, int)])):
+        if t and isinstance(t[0], str) and t[0] in others and t[0] not in allowed:
+            return False
+        if t and t[0] == "option" and len(t) == 4 and t[3] is not None:
+            return False
+    if any(d.get("effects") for k, d in scn["env"].items() if isinstance(k, int)):
+        return False
+    return not any(cp._multi_ref(op[4]) or any(isinstance(v, core.S) and any(x[0] == "ref" for x in v.toks) for v in op[4].values()) for op in scn["ops"])
+
+
+def r4_scenarios(ctx):
+    import random
+    rng = random.Random(f"{ctx.seed}-C01-after-failure-deficient")     # a stream of its own (VERIF_SEED decides it): the older streams stay what they were
+    n = 70 if ctx.quick else 700
+    return [after_failure_scenario(rng, 1000 + 10 * i) for i in range(n)], [deficient_scenario(rng) for _ in range(n)]
+
+
 def run(ctx):
     with entry_points():
         return run_(ctx)
@@ -488,17 +792,62 @@ def run_(ctx):
     corpus = corpus_for(PID)
     scns = [s for _, s in corpus] + generate(ctx, n) + directed(ctx, 160 if ctx.quick else 1600)
     by_entry = entry_scenarios(ctx, recorded=True)      # (generated after the older streams: those stay what they were for every seed)
-    scns = scns + by_entry
+    after_fail, deficient = r4_scenarios(ctx)
+    scns = scns + by_entry + after_fail + deficient
+    unrec = entry_scenarios(ctx, recorded=False)        # (the correspondence run draws no random numbers: the stream is what it was)
+    # the theorem's hypotheses are evaluated by the model on the descriptions alone: that Coq run goes on in the background while the
+    # implementation is exercised (scheduling only - what is computed and compared is unchanged)
+    import threading
+    flags_box = {}
+
+    def compute_flags(all_scns=scns + unrec):
+        try:
+            flags_box["flags"] = covered_flags(ctx, all_scns, "Covered_C01")
+        except BaseException as e:      # re-raised in the main thread
+            flags_box["error"] = e
+    flags_thread = threading.Thread(target=compute_flags, daemon=True)
+    flags_thread.start()
     impls, models, mism, stats = cp.correspondence(ctx, scns, "Cases_C01")
-    unrec = entry_scenarios(ctx, recorded=False)
     u_impls, u_models, u_mism, u_ops = unrecorded_correspondence(ctx, unrec, "Unrecorded_C01")
     scns, impls, models, mism = scns + unrec, impls + u_impls, models + u_models, mism + u_mism
     stats["ops"] += u_ops
-    violations, distinct, oracle_checks, tagged = [], set(), 0, {}
+    violations, late_violations, distinct, oracle_checks, tagged = [], [], set(), 0, {}
+    strict_checks = 0
+    for scn, il in zip(scns, impls):
+        if scn.get("strict") and order_faithful(scn):
+            strict_checks += len(il)
+            for (j, got, want) in strict_failures(scn, il)[:1]:
+                late_violations.append(dict(desc="an operation on the long-lived (cached) graph fails with another cause than the same operation on a fresh cache-free "
+                                                 "copy, in a graph whose parts labrea visits in one order in keys(), validate() and evaluate() (several deficiencies at once)",
+                                            op_index=j, cached=got, uncached=want, finding=None, strict=True, scenario_repr=cp.dump_scn(scn)))
+    for scn, il, ml in zip(scns, impls, models):
+        fails = transparency_failures(scn, il)
+        oracle_checks += sum(1 for op in scn["ops"] if op[0] == "evaluate")
+        for (j, got, want) in fails[:1]:
+            upto = range(min(j + 1, len(ml)))
+            dirty = any(cp.is_dirty(ml[t]) for t in upto)
+            lazy = any(tok.startswith("dirtylazy") for t in upto for tok in cp.split(ml[t])[1])
+            finding = None
+            if dirty and cp.agrees(il, ml, scn, upto=j):
+                finding = "D21" if lazy else cp.zone_of(scn)
+            elif cp.agrees(il, ml, scn, upto=j) and in_zone_d24(scn, j):
+                finding = "D24"
+            elif cp.agrees(il, ml, scn, upto=j) and cp.in_zone_d26(scn, [op[4] for op in scn["ops"][:j + 1]]):
+                finding = "D26"
+            if finding:
+                tagged[finding] = tagged.get(finding, 0) + 1
+            late_violations.append(dict(desc="an evaluation on the long-lived (cached) graph differs from the cache-free evaluation of a fresh copy",
+                                        op_index=j, cached=got, uncached=want, finding=finding, scenario_repr=cp.dump_scn(scn)))
+        hits = sum(1 for l in il if any(t.startswith("get") and t.endswith("T") for t in cp.split(l)[1]))
+        if hits:
+            distinct.add(lib.stable_hash(cp.dump_scn(scn)))
     # the theorem's hypotheses, evaluated by the model on what was generated; inside them the
     # theorem's conclusion is applied to the implementation as a STRICT oracle (same value, or the
     # same failure cause and EvaluationError-ness as a fresh cache-free copy)
-    flags = covered_flags(ctx, scns, "Covered_C01")
+    flags_thread.join()
+    if "error" in flags_box:
+        raise flags_box["error"]
+    flags = flags_box["flags"]
     cov = dict(ops=0, covered_ops=0, covered_histories=0, strict_checks=0, covered_with_hit=0)
     for scn, il, fl in zip(scns, impls, flags):
         cov["ops"] += len(fl)
@@ -523,27 +872,7 @@ def run_(ctx):
                                            op_index=j, cached=cp.split(line)[0], uncached=cp.split(fresh)[0], finding=None,
                                            scenario_repr=cp.dump_scn(scn)))
                     break
-    for scn, il, ml in zip(scns, impls, models):
-        fails = transparency_failures(scn, il)
-        oracle_checks += sum(1 for op in scn["ops"] if op[0] == "evaluate")
-        for (j, got, want) in fails[:1]:
-            upto = range(min(j + 1, len(ml)))
-            dirty = any(cp.is_dirty(ml[t]) for t in upto)
-            lazy = any(tok.startswith("dirtylazy") for t in upto for tok in cp.split(ml[t])[1])
-            finding = None
-            if dirty and cp.agrees(il, ml, scn, upto=j):
-                finding = "D21" if lazy else cp.zone_of(scn)
-            elif cp.agrees(il, ml, scn, upto=j) and in_zone_d24(scn, j):
-                finding = "D24"
-            elif cp.agrees(il, ml, scn, upto=j) and cp.in_zone_d26(scn, [op[4] for op in scn["ops"][:j + 1]]):
-                finding = "D26"
-            if finding:
-                tagged[finding] = tagged.get(finding, 0) + 1
-            violations.append(dict(desc="an evaluation on the long-lived (cached) graph differs from the cache-free evaluation of a fresh copy",
-                                   op_index=j, cached=got, uncached=want, finding=finding, scenario_repr=cp.dump_scn(scn)))
-        hits = sum(1 for l in il if any(t.startswith("get") and t.endswith("T") for t in cp.split(l)[1]))
-        if hits:
-            distinct.add(lib.stable_hash(cp.dump_scn(scn)))
+    violations = violations + late_violations       # (the order the violations were listed in before)
     known = []
     for fid in KNOWN:
         w = WITNESSES[fid]
@@ -557,7 +886,11 @@ def run_(ctx):
                 "adversarially perturbed dictionaries on one long-lived graph; plus datasets / cached nodes created through labrea's other public "
                 "cache entry points (cache=<callable>, a reused configured factory, set_cache, dataset.nocache, cache=NoCache, cached(<cache>)(x); "
                 "and, with caches labrea creates itself: @dataset, cache=MemoryCache, a reused dataset(cache=MemoryCache), set_cache(MemoryCache), "
-                "cached(x)), in particular siblings reading the same options; non-trivial = the history contains at least one cache hit; distinct by "
+                "cached(x)), in particular siblings reading the same options; histories that go on after operations that fail in every way (empty / scalar / "
+                "missing section under a templated reference, missing keys, domain, no matching case, raising bodies) on the same or an unrelated graph, "
+                "then dictionaries differing only in the failed reference's target; graphs with several deficiencies at once (pipelines of several steps "
+                "as callback / applied / handed over, arguments, dispatch, nested datasets), where the failure's cause must equal the cache-free one; "
+                "non-trivial = the history contains at least one cache hit; distinct by "
                 "hash of the scenario",
         "samples": [dict(exprs=repr(s["exprs"])[:400], first_ops=[repr(o)[:160] for o in s["ops"][:3]], observed=il[:3]) for s, il in list(zip(scns, impls))[:3]],
         "traces_validated_against_impl": stats["ops"],
@@ -565,13 +898,26 @@ def run_(ctx):
         "violations": violations,
         "known": known,
         "distribution": dict(stats, oracle_checks=oracle_checks, oracle_failures_tagged=tagged, scenarios=len(scns),
-                             theorem_hypotheses=cov, entry_point_scenarios=dict(recording_caches=len(by_entry), caches_created_by_labrea=len(unrec)),
+                             theorem_hypotheses=cov, histories_going_on_after_failures=len(after_fail), after_failure_sites=site_histogram(after_fail),
+                             several_deficiencies_at_once=dict(histories=len(deficient), strict_cause_checks=strict_checks,
+                                                               shapes={k: sum(1 for x in deficient if x["strict"] == k) for k in sorted({x["strict"] for x in deficient})}),
+                             entry_point_scenarios=dict(recording_caches=len(by_entry), caches_created_by_labrea=len(unrec)),
                              entry_points=entry_histogram(by_entry + unrec)),
         "exhaustive": False,
         "assumptions": ["user code is deterministic; cyclic template references excluded; floats not generated",
-                        "failure comparison is by failing/succeeding (which of several causes surfaces first legitimately differs when the fingerprint is computed first)"],
+                        "failure comparison is by failing/succeeding (which of several causes surfaces first legitimately differs when the fingerprint is computed first: "
+                        "a domain violation or a raising body ahead of a missing key), EXCEPT in the order-faithful fragment (order_faithful: no templates, coalesce, "
+                        "case, bind, Map, domains, effects) where every deficiency is visible to keys() and the cause must be the cache-free one"],
         "trusted_base": ["confectioner functions and CPython json/str/dict are modelled (Model/Base.v, Model/Template.v), validated by this correspondence run"],
     }
+
+
+def site_histogram(scns):
+    h = {}
+    for s in scns:
+        for k in s.get("after_failure", []):
+            h[k] = h.get(k, 0) + 1
+    return h
 
 
 def entry_histogram(scns):
@@ -592,6 +938,8 @@ def replay_(ctx, payload):
     scn = cp.load_scn(payload["scenario_repr"])
     il = core.run_impl(scn)
     f = transparency_failures(scn)
+    if scn.get("strict") and order_faithful(scn):
+        f = f + strict_failures(scn, il)
     ml = ctx.coq_eval("Replay_C01", cp.REQ, "", [core.coq_scenario(scn)])[0].split(" ## ")
     if scn.get("unrecorded"):       # caches created by labrea itself: no cache events on the implementation's side
         il, ml = [without_cache_events(l) for l in il], [without_cache_events(l) for l in ml]
